@@ -302,6 +302,8 @@ class C10(Prop):
             # target: the current axes plus new ones, in any order; singleton axes may be replaced
             target = []
             for a in sim.axes:
+                if len(a["labels"]) == 1 and rng.random() < 0.2:
+                    continue        # a singleton dimension the target does not list: dropped (the other singletons keep their label)
                 if len(a["labels"]) == 1 and rng.random() < 0.5:
                     target.append(gen.clean(gen.rand_axis(rng, a["name"], n=rng.randint(2, 3))))
                 else:
